@@ -99,6 +99,11 @@ func (w *worker) postMortem() (what, site string) {
 		}
 		if what == "stack overflow" {
 			site = recursionSite(block)
+		} else if what == "out of memory" {
+			// which allocation fails is arbitrary; what keeps allocating is not:
+			// the cog function that occurs most often on the stack (a runaway
+			// recursion), else the outermost cog function of the failing call
+			site = dominantSite(block)
 		} else {
 			site = siteOf(cogFrames(block, false))
 		}
